@@ -77,6 +77,12 @@ func RunC10(r *sim.Run) {
 		cluster string
 	}
 	var events []event
+	type duringReq struct {
+		q      *Req
+		name   string
+		before int // index of the last snapshot before the update
+	}
+	var during []duringReq
 	stable := map[int]bool{} // snapshot indices taken at stable points
 	nSteps := t.Range(8, 45)
 	writes, lagWrites := 0, 0
@@ -96,7 +102,23 @@ func RunC10(r *sim.Run) {
 			} else {
 				c.cert, c.ca = 0, 0
 			}
-			if err := w.Apply(c.object(certList)); err != nil {
+			// requests for the cluster's own name (which every version claims) that arrive
+			// while the update is being applied: nothing settles in between
+			kDuring := 0
+			if live[n] && t.Draw(2) == 0 {
+				kDuring = t.Range(1, 2)
+			}
+			w.NoWait = kDuring > 0
+			err := w.Apply(c.object(certList))
+			for k := 0; k < kDuring && err == nil; k++ {
+				reqN++
+				q := &Req{ID: fmt.Sprintf("u%d", reqN), Host: n, Method: "GET", Target: "/api/v1/namespaces/default/pods"}
+				w.Send(q)
+				during = append(during, duringReq{q, n, len(w.Snaps()) - 1})
+			}
+			w.NoWait = false
+			w.Quiesce()
+			if err != nil {
 				r.Logf("%s names=%v REJECTED: %s", n, c.serverNames, firstLine(err.Error()))
 				break
 			}
@@ -206,6 +228,34 @@ func RunC10(r *sim.Run) {
 
 	// ---- oracle over the snapshot history ---------------------------------
 	snaps := w.Snaps()
+	// a name that resolved to its cluster before an update of that cluster and resolves to
+	// it afterwards resolves to it at every moment in between: requests sent at the instant
+	// of the update are served by that cluster
+	for _, d := range during {
+		if !d.q.Done || d.before+1 >= len(snaps) || snaps[d.before].Resolve[d.name] != d.name || snaps[d.before+1].Resolve[d.name] != d.name {
+			continue
+		}
+		got := ""
+		for _, o := range w.UpObs() {
+			if o.Kind == "proxied" && o.ID == d.q.ID {
+				got = o.Cluster
+			}
+		}
+		st := statusOf(d.q)
+		if got == "" && d.q.Status == 503 && st != nil && strings.Contains(st.Message, "no ready endpoints") {
+			continue
+		}
+		r.Checked("own_name_resolves_during_update")
+		if got != d.name {
+			msg := ""
+			if st != nil {
+				msg = firstLine(st.Message)
+			}
+			r.Violate("name_lost_or_captured", "during-update", "request %s for host %q was sent while cluster %q was being updated; the name resolved to that cluster before and after the update, but the request was served by %q (status %d %s)", d.q.ID, d.name, d.name, got, d.q.Status, msg)
+			return
+		}
+	}
+	r.ProbeN("requests_sent_while_their_cluster_was_updated", len(during))
 	// per snapshot: claims of the latest object of every live cluster (from the snapshot itself)
 	latestClaims := func(s *Snap) map[string]map[string]bool {
 		out := map[string]map[string]bool{}
